@@ -75,7 +75,7 @@ def scan_assumptions(text):
     return sorted(set(found))
 
 
-def build(repo, outdir, with_contracts=True, inferred=None, with_bt=True, dropped_opt=None, only_bt=False):
+def build(repo, outdir, with_contracts=True, inferred=None, with_bt=True, dropped_opt=None, only_bt=False, external=()):
     ex = extract_parser.extract(repo)
     prelude = open(os.path.join(VERIF, 'contracts/parser_prelude.rs')).read() + open(os.path.join(VERIF, 'contracts/parser_prelude_bt.rs')).read()
     stubs = open(os.path.join(VERIF, 'contracts/parser_stubs.rs')).read()
@@ -84,7 +84,8 @@ def build(repo, outdir, with_contracts=True, inferred=None, with_bt=True, droppe
         top += open(os.path.join(VERIF, 'contracts/parser_top_bt.rs')).read()
     fns, loops = weave.parse_spec(open(os.path.join(VERIF, 'contracts/parser.spec')).read())
     loops.dropped_optional = set(dropped_opt or ())
-    text, linemap, info = weave.assemble(ex, prelude, fns, loops, stubs, top, inferred, with_bt, only_bt)
+    text, linemap, info = weave.assemble(ex, prelude, fns, loops, stubs, top, inferred, with_bt, only_bt, external)
+    info['assumed_in_this_run'] = sorted(external)
     info['optional_clauses_dropped'] = sorted(loops.dropped_optional)
     info['tree_builder_in_unit'] = with_bt
     os.makedirs(outdir, exist_ok=True)
@@ -117,6 +118,7 @@ def verify_with_inference(repo, outdir):
     inferred = None
     log = []
     with_bt, bt_note = True, None
+    external = ()
     dropped_opt = set()
     # phase 0: optional clauses live in the tree-builder part only; prune them on the reduced unit (seconds per round)
     for rnd in range(12):
@@ -133,20 +135,31 @@ def verify_with_inference(repo, outdir):
         dropped_opt |= newly
         log.append('tree-builder unit, round %d: optional clauses not established by the code, dropped: %s' % (rnd, sorted(newly)))
     for rnd in range(20):
-        try:
-            ex, fns, loops, text, linemap, info, unit = build(repo, outdir, True, inferred, with_bt, dropped_opt)
-            if with_bt and ex.get('build_tree_unextractable'):
-                raise Undecided('Parser::build_tree is not of the shape the rewrites R11/R12 expect: %s' % ex['build_tree_unextractable'])
-            res = verus(unit, multiple_errors=30 if inferred is not None else 10)
-        except (Undecided, AnchorLost) as e:
-            if not with_bt:
-                raise
-            # the tree builder's text is outside what the extractor / Verus can take: verify the grammar unit without it;
-            # Parser::build_tree is then covered by the bounded Kani harnesses only (and reported so)
-            with_bt, bt_note = False, str(e)[:600]
-            log.append('tree builder left out of the Verus unit: %s' % bt_note)
-            ex, fns, loops, text, linemap, info, unit = build(repo, outdir, True, inferred, with_bt, dropped_opt)
-            res = verus(unit, multiple_errors=30 if inferred is not None else 10)
+        # configurations, most complete first: (tree builder in the unit?, functions taken as external_body).  A unit that the
+        # extractor cannot cut or Verus rejects outright (unsupported construct, type error) moves on to the next one; the
+        # configuration that was used is recorded in the evidence.  Never an alarm by itself.
+        configs = [(True, ()), (True, ('Parser::error',)), (False, ()), (False, ('Parser::error',))]
+        configs = configs[configs.index((with_bt, tuple(external))):]
+        last_exc = None
+        for (cfg_bt, cfg_ext) in configs:
+            try:
+                ex, fns, loops, text, linemap, info, unit = build(repo, outdir, True, inferred, cfg_bt, dropped_opt, external=cfg_ext)
+                if cfg_bt and ex.get('build_tree_unextractable'):
+                    raise Undecided('Parser::build_tree is not of the shape the rewrites R11/R12 expect: %s' % ex['build_tree_unextractable'])
+                res = verus(unit, multiple_errors=30 if inferred is not None else 10)
+                if (cfg_bt, cfg_ext) != (with_bt, tuple(external)):
+                    if with_bt and not cfg_bt:
+                        bt_note = str(last_exc)[:600]
+                        log.append('tree builder left out of the Verus unit: %s' % bt_note)
+                    if cfg_ext and not external:
+                        log.append('Parser::error taken as external_body in this run (its contract is assumed here and checked by the Kani harness error_contract): %s' % str(last_exc)[:300])
+                    with_bt, external = cfg_bt, cfg_ext
+                last_exc = None
+                break
+            except (Undecided, AnchorLost) as e:
+                last_exc = e
+        if last_exc is not None:
+            raise last_exc
         info['tree_builder_fallback_reason'] = bt_note
         # optional clauses (contracts/parser.spec `ensures_optional`) that the body does not establish are dropped and the
         # unit is verified again: they only exist so that one function can be written through another
@@ -424,6 +437,9 @@ def main(prop, tier):
     allowed = [norm(l) for l in open(os.path.join(VERIF, 'contracts/ALLOWED_ASSUMPTIONS')).read().split('\n')
                if l.strip() and not l.startswith('# ')]
     extra_assumptions = [a for a in assumptions_found if a not in allowed]
+    if 'Parser::error' in info.get('assumed_in_this_run', []):
+        # fallback configuration of verify_with_inference: reported in the evidence, checked by the Kani harness error_contract
+        extra_assumptions = [a for a in extra_assumptions if a != '#[verifier::external_body] fn error']
 
     want_driver = True
     with cf.ThreadPoolExecutor(max_workers=8) as pool:
@@ -594,6 +610,7 @@ def main(prop, tier):
         'tree_builder': {'verified_in_this_unit': bool(info.get('tree_builder_in_unit')), 'fallback_reason': info.get('tree_builder_fallback_reason'),
                          'rewrites': ex.get('rewrites_build_tree'), 'optional_clauses_dropped': info.get('optional_clauses_dropped')},
         'closures_under_contract': info.get('closures_contracted'),
+        'contracts_assumed_in_this_run_by_fallback': info.get('assumed_in_this_run'),
     }
     write_evidence(prop, tier, 'proof', cov,
                    ['see coverage.trusted_base'], wall, len(violations),
